@@ -27,6 +27,12 @@ SCRIPTS = {
     "raise-idle-short-close": [("s", 0, "raises"), ("w", 0), ("i",), ("s", 1, "short"), ("w", 1), ("c",)],
     "raise-short-idle-close": [("s", 0, "raises"), ("s", 1, "short"), ("w", 0), ("w", 1), ("i",), ("c",)],
     "long-raise-release-idle-close": [("s", 0, "long"), ("s", 1, "raises"), ("r", 0), ("w", 0), ("w", 1), ("i",), ("c",)],
+    # a job that ends its worker thread (SystemExit out of a remote method): the slot is free again, later jobs are served
+    "exit-idle-short-close": [("s", 0, "exits"), ("w", 0), ("i",), ("s", 1, "short"), ("w", 1), ("c",)],
+    "exit-exit-idle-short-short-close": [("s", 0, "exits"), ("s", 1, "exits"), ("w", 0), ("w", 1), ("i",), ("s", 2, "short"), ("s", 3, "short"), ("w", 2), ("w", 3), ("c",)],
+    "long-exit-short-release-close": [("s", 0, "long"), ("s", 1, "exits"), ("w", 1), ("i1",), ("s", 2, "short"), ("w", 2), ("r", 0), ("c",)],
+    # the system refuses to start another thread when the pool wants to grow (scripts run with fail_start)
+    "long-short-short-release-close": [("s", 0, "long"), ("s", 1, "short"), ("s", 2, "short"), ("w", 2), ("r", 0), ("c",)],
 }
 
 
@@ -43,6 +49,7 @@ def make_run(cfg):
         config.THREADPOOL_SIZE_MIN = MIN
         reset_worker_counter()
         sch = S.Scheduler(chooser, watch=watch)
+        sch.fail_starts = tuple(cfg.get("fail_start", ()))
         sch.install()
         log = []          # (event, job)
         state = {"pool": None, "closed_returned": False, "close_started": False, "max_count": 0,
@@ -52,6 +59,18 @@ def make_run(cfg):
         release = {}
         done_evt = {}
         occupying = set()   # jobs handed to a worker whose worker has not yet returned from notify_done
+        exiting = set()     # jobs that end their worker thread; they occupy it until that thread is gone
+        worker_of = {}
+
+        def occupied():
+            n = 0
+            for j in occupying:
+                if j in exiting:
+                    ts = [t for t in sch.threads if t.thread is worker_of.get(j)]
+                    if ts and ts[0].status == S.DONE:
+                        continue
+                n += 1
+            return n
         refusals = []
 
         def make_job(j, kind):
@@ -68,6 +87,9 @@ def make_run(cfg):
                 done_evt[j].flag = True
                 if kind == "raises":
                     raise RuntimeError("job %d ends with an exception" % j)
+                if kind == "exits":
+                    exiting.add(j)
+                    raise SystemExit(0)
             job.j = j
             return job
 
@@ -83,7 +105,7 @@ def make_run(cfg):
                     # workers genuinely occupied = jobs handed out whose worker did not complete notify_done yet.
                     # Only this thread adds to the set, so its size at the start of process() is the maximum over
                     # the duration of the call: a refusal is justified iff that maximum reached MAX.
-                    occ_at_call = len(occupying)
+                    occ_at_call = occupied()
                     try:
                         occupying.add(j)
                         pool.process(job)
@@ -92,6 +114,11 @@ def make_run(cfg):
                         occupying.discard(j)
                         refusals.append((j, occ_at_call))
                         log.append(("refused", j))
+                    except RuntimeError as x:
+                        if "can't start new thread" not in str(x):
+                            raise
+                        occupying.discard(j)
+                        log.append(("start-failed", j))       # nothing was accepted, nothing may remain of the attempt
                     except svr_threads.PoolError:
                         occupying.discard(j)
                         log.append(("pool-closed", j))
@@ -104,9 +131,10 @@ def make_run(cfg):
                         state["waiting_for"] = step[1]
                         done_evt[step[1]].wait()
                         state["waiting_for"] = None
-                elif step[0] == "i":
+                elif step[0] in ("i", "i1"):
                     state["waiting_idle"] = True
-                    sch.block(lambda: not pool.busy, what="no busy workers")
+                    limit = 0 if step[0] == "i" else 1
+                    sch.block(lambda: len(pool.busy) <= limit, what="at most %d busy workers" % limit)
                     state["waiting_idle"] = False
                 elif step[0] == "c":
                     for ev in release.values():
@@ -135,6 +163,7 @@ def make_run(cfg):
         def wprocess(self, job):
             if job is not None:
                 self._vf_job = job.j
+                worker_of[job.j] = self
             return orig_process(self, job)
 
         def on_point(s):
@@ -172,6 +201,8 @@ def make_run(cfg):
             elif outcome in ("hang", "horizon"):
                 raise HarnessError("execution did not terminate: %s" % outcome)
             for name, x in sch.errors:
+                if isinstance(x, SystemExit) and name.startswith("Pyro-Worker") and exiting:
+                    continue       # that job's way of ending
                 V("uncaught-%s-in-%s" % (type(x).__name__, "worker" if name.startswith("Pyro-Worker") else name),
                   "uncaught %r in thread %s" % (x, name))
             accepted = [j for (e, j) in log if e == "accepted"]
@@ -193,6 +224,12 @@ def make_run(cfg):
                 V("too-many-workers", "len(idle)+len(busy) reached %d > THREADPOOL_SIZE %d" % (state["max_count"], MAX))
             if state["overlap"]:
                 V("idle-busy-overlap", "a worker was in idle and busy at once")
+            pool = state["pool"]
+            if pool is not None and outcome == "quiescent":
+                known = {t.thread for t in sch.threads}
+                ghosts = [w for w in (pool.idle | pool.busy) if w not in known]
+                if ghosts:
+                    V("pool-counts-a-worker-that-never-started", "%d of the workers the pool counts have no thread: idle=%d busy=%d" % (len(ghosts), len(pool.idle), len(pool.busy)))
             if outcome == "quiescent" and state["closed_returned"] and alive:
                 V("worker-survives-close", "%d worker thread(s) parked for ever after close(): %r" % (len(alive), alive))
             oc = (outcome, tuple(sorted(started.items())), tuple(e for e in log), len(alive), state["max_count"],
@@ -381,6 +418,9 @@ def configs(tier):
                     budgets = [(1, 3)]
             for (p, r) in budgets:
                 out.append({"script": name, "min": mn, "max": mx, "p": p, "r": r, "horizon": 3000})
+                if name == "long-short-short-release-close" and mx > mn:
+                    # the first Thread.start() by which the pool wants to grow fails (start 1 is the accept thread, then the MIN initial workers)
+                    out.append({"script": name, "min": mn, "max": mx, "p": p, "r": r, "horizon": 3000, "fail_start": [mn + 2]})
     return out
 
 
